@@ -61,6 +61,12 @@ def case_strategy(draw):
     n = src.choice(7)
     case["follow"] = [ops.gen_op(src, info, inplace=True, bad_rate=(1, 10), allow=("scalar", "element", "top", "nested")) for _ in range(n)]
     case["side"] = src.pick(["result", "receiver"])
+    if src.chance(1, 6):
+        # a constructor keyword given as the exported UNCHANGED sentinel ("leave as it is") is an omitted keyword: the
+        # instance still gets its own copy of the default
+        names = [n for n, a in info.attrs().items() if a.get("init") is not False]
+        if names:
+            case["ops"][0]["k"][src.pick(names)] = ["$unchanged"]
     return case
 
 
